@@ -1,3 +1,5 @@
 import FrappyProofs.Lemmas.Logging
+import FrappyProofs.Lemmas.Persist
 import FrappyProofs.Lemmas.Rotate
+import FrappyProofs.Props.C17
 import FrappyProofs.Props.C20
